@@ -143,7 +143,8 @@ Inductive error :=
 | EUndefVar (x : name)                               (* "Undefined variable: x" while an initialiser is evaluated *)
 | EUndefFunc (f : name)                              (* "Undefined function: f" *)
 | EUndefEnum (en m : name)                           (* enum / member not known *)
-| ENoBody (f : name).                                (* model only: the bound node is not among the call's candidates *)
+| ENoBody (f : name)                                 (* model only: the bound node is not among the call's candidates *)
+| EConstAssign (x : name).                           (* "Cannot reassign const variable: x" *)
 Inductive result := Ok (t : tables) | Err (e : error).
 
 (* ----- evaluation of an initialiser against the current tables *)
@@ -418,6 +419,15 @@ Definition start_program (fuel pf : nat) (fs : fsys) (prog : module) : result :=
   match load fuel pf fs (imports_of prog) empty_tables with
   | Ok t => run_ops (local_ops prog) t
   | Err e => Err e
+  end.
+
+(* ----- an assignment `x = v;` executed by the importer after the imports: a variable registered as a
+   constant (is_const, and - since fix a4fa15d - is_assigned: its initialiser has been evaluated) rejects it *)
+Definition assign (t : tables) (x : name) (v : nat) : result :=
+  match lookup x (vars t) with
+  | None => Err (EUndefVar x)
+  | Some (true, _) => Err (EConstAssign x)
+  | Some (false, _) => Ok (set_vars t (bind x (false, Some v) (vars t)))
   end.
 
 (* ---------- observations *)
